@@ -2,6 +2,7 @@
 (* Driver for the memory models (coq/Mem).  Same script as harness/mem_wb.c:
      <k> L new|append|set i|insert i|delete i|get i|free
      <k> P new|alloc|delete i|free
+     <k> D new perf|resize rows cols freqs|free
      <k> A type frows fcols brows bcols srows scols
    k = -1: no fault; k >= 0: request number k+1 of this op fails.
    Output per op: <ret class> <errno class> <live blocks>  or  FAULT <kind>. *)
@@ -19,6 +20,7 @@ let with_fault k (s : astate) : astate = { fail_at = (if k < 0 then None else So
 let () =
   let lst = ref None and ls = ref (start None) in
   let pc = ref None and ps = ref (start None) in
+  let dd = ref None and ds = ref (start None) in
   (try
     while true do
       let line = input_line stdin in
@@ -66,6 +68,29 @@ let () =
            let o = (match op with "alloc" -> PAlloc | _ -> PDelete (z_of_int (int_of_string (List.nth args 0)))) in
            (match pstep Fixed c o s with
             | Ok ((c', out), s') -> pc := Some c'; ps := s'; Printf.printf "%s %d\n" (out_str out) (length s'.live)
+            | Fault f -> Printf.printf "FAULT %s\n" (fault_name f)))
+      | k :: "D" :: op :: args ->
+        let k = int_of_string k in
+        let a i = int_of_string (List.nth args i) in
+        let s = with_fault k !ds in
+        (match op, !dd with
+         | "new", _ ->
+           (match dnew (a 0 <> 0) s with
+            | Ok (Some d, s') -> dd := Some d; ds := s'; Printf.printf "Done E0 %d\n" (length s'.live)
+            | Ok (None, s') -> ds := s'; Printf.printf "Err ENOMEM %d\n" (length s'.live)
+            | Fault f -> Printf.printf "FAULT %s\n" (fault_name f))
+         | "free", Some d ->
+           (match dfree d s with
+            | Ok (_, s') -> dd := None; ds := s'; Printf.printf "Done E0 %d\n" (length s'.live)
+            | Fault f -> Printf.printf "FAULT %s\n" (fault_name f))
+         | _, None -> print_string "SKIP E0 0\n"
+         | _, Some d ->
+           (* vnadata_resize(vdp, VPT_UNDEF, rows, columns, frequencies): ports = max, cells = product *)
+           let r = a 0 and c = a 1 and f = a 2 in
+           let ports = if r < 0 || c < 0 then (-1) else max r c in
+           let cells = if r < 0 || c < 0 then (-1) else r * c in
+           (match resize Fixed d (z_of_int ports) (z_of_int cells) (z_of_int f) s with
+            | Ok ((d', out), s') -> dd := Some d'; ds := s'; Printf.printf "%s %d\n" (out_str out) (length s'.live)
             | Fault f -> Printf.printf "FAULT %s\n" (fault_name f)))
       | _ :: "A" :: ty :: args ->
         let a i = int_of_string (List.nth args i) in
